@@ -272,9 +272,70 @@ def discharge(facts, site, summaries):
             if _implies_lt(gfacts, site.ops[1], site.ops[0]):
                 return "guard", "dominating comparison establishes index < len"
         return None, ""
-    if k == "index":
-        # Index::index(slice, Range{start: a, end: b}) with b <= len by interval on fixed-size arrays or `min`
+    if k == "index" and callee_matches(t, r"ops::Index(Mut)?::index(_mut)?$") and len(site.ops) == 2:
+        return _discharge_index(site.ops[0], site.ops[1], iv)
+    return None, ""
+
+
+def _strip_casts(e):
+    while e[0] == "cast":
+        e = e[1]
+    return e
+
+
+def _subslice_of(b, base):
+    """is expression b the slice `base` itself or a range-indexed view of it?"""
+    if b == base:
+        return True
+    if b[0] == "call" and re.search(r"ops::Index(Mut)?::index(_mut)?$", b[1]) and b[2]:
+        return _subslice_of(b[2][0], base)
+    return False
+
+
+def _discharge_index(base, rng, iv):
+    start = end = None
+    if rng[0] == "agg" and rng[1].startswith("adt:Range"):
+        d = dict(rng[3])
+        start, end = d.get("start"), d.get("end")
+        if rng[1] == "adt:RangeFull":
+            return "interval", "full range"
+    else:
         return None, ""
+    if start is not None:
+        rs = iv.range_of(start, "usize")
+        if end is None:
+            # RangeFrom: needs start <= len
+            return None, ""
+        if not (rs[1] == 0):
+            re_ = iv.range_of(end, "usize")
+            if rs[1] > re_[0]:
+                return None, ""
+    if end is None:
+        return None, ""
+    e = _strip_casts(end)
+    # (1) I/O contract: end is the count returned by Read::read / Write::write on this very buffer (or a sub-slice of it)
+    if e[0] == "ok" and e[1][0] == "call" and re.search(r"io::(Read::read|Write::write)$", e[1][1]) and len(e[1][2]) == 2:
+        if _subslice_of(e[1][2][1], base):
+            return "contract", "end bound is the count returned by %s on this buffer: n <= buf.len() by the Read/Write contract" % e[1][1].split("::")[-1]
+    # (2) end = min(.., len(base))
+    if e[0] == "call" and re.search(r"::min$", e[1]) and len(e[2]) == 2:
+        for a in e[2]:
+            a = _strip_casts(a)
+            if (a[0] == "call" and re.search(r"::len$", a[1]) and a[2] and a[2][0] == base) or (a[0] == "len" and a[1] == base):
+                return "interval", "end bound is min(_, len(buffer))"
+    # (3) fixed-length base
+    ln = None
+    if base[0] == "repeat":
+        try:
+            ln = int(str(base[2]).split("_")[0])
+        except ValueError:
+            ln = None
+    if base[0] == "call" and re.search(r"vec::from_elem$", base[1]) and len(base[2]) == 2:
+        ln = iv.range_of(base[2][1], "usize")[0]
+    if ln is not None:
+        re_ = iv.range_of(end, "usize")
+        if re_[1] <= ln:
+            return "interval", "end bound <= %d <= fixed length %d" % (re_[1], ln)
     return None, ""
 
 
